@@ -39,9 +39,18 @@ def interp_refine(ctx, cfg, d, field, u0s, t0, hs):
     solver, prior = objs["solver"], objs["prior"]
     stepper = sm.ModelStepper(ctx, cfg, field, d, c02.lam_of(cfg, d), prior=prior)
     st0 = solver.init(jnp.asarray(t0), prior, damp=cfg.damp)
-    for h in hs[:-1]:
-        st0 = solver.step(st0, dt=jnp.asarray(h), damp=cfg.damp)
-    st1 = solver.step(st0, dt=jnp.asarray(hs[-1]), damp=cfg.damp)
+    case0 = c02.case_of(cfg, field, u0s, t0, hs)
+    for h in [*hs[:-1], None]:
+        hh = hs[-1] if h is None else h
+        nxt = solver.step(st0, dt=jnp.asarray(hh), damp=cfg.damp)
+        if not sm.state_is_finite(nxt):
+            sig, why = sm.nonfinite_signature(ctx, cfg, stepper, sm.state_slices(cfg, st0), F(float(st0.t)), F(hh))
+            ctx.violation(sig, why, case0)
+            return
+        if h is None:
+            st1 = nxt
+        else:
+            st0 = nxt
     ta, tb = float(st0.t), float(st1.t)
     frac = float(gen.pick(ctx.rng, [0.5, 0.25, 0.875, 2.0**-10, 1 - 2.0**-10]))
     t = ta + (tb - ta) * frac
@@ -175,11 +184,14 @@ def superset(ctx, cfg, d, field, u0s, t0, t1, tol, dt0):
         for (ma, Ca), (mb, Cb) in zip(sm.normal_slices(cfg.fact, ua), sm.normal_slices(cfg.fact, ub)):
             n = len(ma)
             sv = np.array([Ca[i, i] + (ma[i] * Fraction(1, 10**9)) ** 2 + Fraction(1, 10**80) for i in range(n)], dtype=object)
-            dm = sm._dev_vec(mb, ma, np.abs(sm.tofloat(ma)) + np.sqrt(sm.tofloat(sv)))
+            dm = sm._dev_vec(mb, ma, np.abs(sm.tofloat(ma)) + np.sqrt(sm.tofloat(sv)) + 1e-6 * np.max(np.abs(sm.tofloat(ma)), initial=0.0))
             dc = sm._dev_cov(Cb, Ca, sv)
             c = dict(case, index_in_A=ia)
-            ctx.dev("superset.mean", dm, 1e-7, case=c, sig=f"{sigp}:mean", what=f"mean at a common checkpoint changes by {dm:.2e} when more checkpoints are requested")
-            ctx.dev("superset.cov", dc, 1e-6, case=c, sig=f"{sigp}:cov", what=f"covariance at a common checkpoint changes by {dc:.2e} when more checkpoints are requested")
+            # smoothers propagate information backwards through gains whose conditioning grows like the Hilbert matrix of
+            # order q (kappa up to ~1e9 for q = 4 with small steps): implementation-vs-implementation noise reaches 1e-7
+            tm, tc_ = (1e-7, 1e-6) if cfg.strategy == "filter" else (1e-5, 1e-4)
+            ctx.dev("superset.mean", dm, tm, case=c, sig=f"{sigp}:mean", what=f"mean at a common checkpoint changes by {dm:.2e} when more checkpoints are requested")
+            ctx.dev("superset.cov", dc, tc_, case=c, sig=f"{sigp}:cov", what=f"covariance at a common checkpoint changes by {dc:.2e} when more checkpoints are requested")
         nsa, nsb = int(np.asarray(solA.num_steps)[ia - 1] if ia > 0 else 0), int(np.asarray(solB.num_steps)[ib - 1] if ib > 0 else 0)
         if nsa != nsb:
             ctx.violation(f"{sigp}:num_steps", f"num_steps at a common checkpoint differs: {nsa} vs {nsb}", dict(case, index_in_A=ia))
@@ -230,7 +242,7 @@ def offgrid(ctx, cfg, d, field, u0s, t0, t1, tol, dt0):
     for (ma, Ca), (mb, Cb) in zip(sm.normal_slices(cfg.fact, off), sm.normal_slices(cfg.fact, got)):
         n = len(ma)
         sv = np.array([Ca[i, i] + (ma[i] * Fraction(1, 10**9)) ** 2 + Fraction(1, 10**80) for i in range(n)], dtype=object)
-        dm = sm._dev_vec(mb, ma, np.abs(sm.tofloat(ma)) + np.sqrt(sm.tofloat(sv)))
+        dm = sm._dev_vec(mb, ma, np.abs(sm.tofloat(ma)) + np.sqrt(sm.tofloat(sv)) + 1e-6 * np.max(np.abs(sm.tofloat(ma)), initial=0.0))
         dc = sm._dev_cov(Cb, Ca, sv)
         ctx.dev("offgrid.mean", dm, 1e-7, case=case, sig=f"offgrid:{cfg.fact}:{cfg.strategy}:{cfg.solver}:mean", what=f"off-grid marginal mean differs from the checkpoint value by {dm:.2e}")
         ctx.dev("offgrid.cov", dc, 1e-6, case=case, sig=f"offgrid:{cfg.fact}:{cfg.strategy}:{cfg.solver}:cov", what=f"off-grid marginal covariance differs from the checkpoint value by {dc:.2e}")
